@@ -192,6 +192,7 @@ def check(prop, tier="quick", seed=0, repo="/repo", jobs=None, only=None, verbos
     checker_errors = []
     canary_ok = 0
     canary_total = 0
+    canary_proved = []
     ob_records = []
     discharged = 0
     n_top = n_internal = 0
@@ -222,8 +223,11 @@ def check(prop, tier="quick", seed=0, repo="/repo", jobs=None, only=None, verbos
             canary_total += 1
             if res["status"] == "failed":
                 canary_ok += 1
+            elif res["status"] == "proved":
+                canary_proved.append(ob)
             else:
-                checker_errors.append((ob, ["canary was not refuted (status %s)" % res["status"]]))
+                # the canary could not be run (the code left the modelled fragment): nothing is vouched for, nothing is wrong
+                print("CANARY-UNDECIDED %s (%s)" % (ob.id, "; ".join(res.get("notes", [])[:1]) or "unsupported construct"))
             continue
         if n_goals == 0 and res["status"] == "proved":
             checker_errors.append((ob, ["obligation produced no goals (vacuous)"]))
@@ -259,7 +263,10 @@ def check(prop, tier="quick", seed=0, repo="/repo", jobs=None, only=None, verbos
             drift.append((ob, labels, "localises a top-level failure"))
         else:
             drift.append((ob, labels, "top-level obligations hold"))
-    violations = [v for v in violations if v]
+    for v in list(violations):
+        if v and v[0] == "checker-error":
+            checker_errors.append((v[1], v[2]))
+    violations = [v for v in violations if v and v[0] != "checker-error"]
 
     # --- numeric cross-check of everything that was proved: a proved obligation that fails on the real numpy
     #     means the model does not represent the code (checker error, not a verdict)
@@ -335,6 +342,14 @@ def check(prop, tier="quick", seed=0, repo="/repo", jobs=None, only=None, verbos
                         violations.append((o, labels, path, True))
                 elif not info.get("points"):
                     checker_errors.append((o, ["numeric-only obligation explored no point"]))
+
+    # a deliberately wrong specification that is PROVED: on a tree where every real obligation holds this means the machinery
+    # proves too much (checker error); on a tree with violations the changed code may simply coincide with the wrong spec
+    for ob in canary_proved:
+        if violations:
+            print("CANARY-NOTE %s: the deliberately wrong specification holds for this (violating) code" % ob.id)
+        else:
+            checker_errors.append((ob, ["canary was not refuted: a deliberately wrong specification was PROVED"]))
 
     # --- report
     for oid, kf in known_seen:
@@ -421,21 +436,28 @@ COMMON_ASSUMPTIONS = [
 
 def _report_failure(prop, tier, seed, repo, ob, res, failed, labels, replay_dir, known, known_seen, budget=400):
     """Search a failing input on the real code for a failed top-level obligation; write the replay file."""
-    witness = {}
+    witnesses = []
     for g in failed:
-        if g.get("model"):
-            witness = g["model"]
-            break
-    verifier_output = {"failed_goals": [{k: v for k, v in g.items() if k != "model"} for g in failed[:6]], "model": witness}
+        if g.get("model") and g["model"] not in witnesses:
+            witnesses.append(g["model"])
+    witness = witnesses[0] if witnesses else {}
+    verifier_output = {"failed_goals": [{k: v for k, v in g.items() if k != "model"} for g in failed[:6]], "models": witnesses[:4]}
     found = None
     if ob.numeric:
-        num = run_numeric(prop, tier, seed, repo, [ob.id], budget, "search", witness=witness)
-        if "error" in num:
-            verifier_output["numeric_error"] = num["error"]
-        else:
+        # every counter-model the solver produced is replayed on the real code first, then a seeded search
+        for i, w in enumerate(witnesses[:4] or [{}]):
+            last = i == len(witnesses[:4] or [{}]) - 1
+            num = run_numeric(prop, tier, seed, repo, [ob.id], budget if last else 1, "search", witness=w)
+            if "error" in num:
+                verifier_output["numeric_error"] = num["error"]
+                break
             info = num["results"].get(ob.id)
             if info and info["failed_points"]:
                 found = info["failed_points"][0]
+                break
+    if found is None and failed and all(g.get("shim_exception") for g in failed):
+        # an exception that surfaced inside the shim and that the real code does not reproduce: the model is at fault
+        return ("checker-error", ob, ["exception inside the symbolic shim not reproduced on the real code: %s" % failed[0].get("detail", "")])
     path = _write_replay(replay_dir, prop, ob, tier, seed, found, verifier_output, found is not None)
     lab = labels if found is None else sorted({g["label"] for g in found["goals"]} | set(labels))
     kf = finding_for(known, prop, ob.id, labels)
